@@ -145,12 +145,11 @@ def FoldSound (c : CCtx) (L : Expr → Bool) : Expr → Prop
   | .paren e => FoldSound c L e
   | _ => True
 
-/-- The shape of residual conditions: the logical skeleton over stable predicates and booleans;
-parentheses only around binary nodes. -/
+/-- The shape of residual conditions: the logical skeleton over stable predicates and booleans. -/
 def isRes : Expr → Bool
   | .binary op l r =>
     if op = .AND ∨ op = .OR then isRes l && isRes r else stablePred l r
-  | .paren e => isRes e && e.isBinary
+  | .paren e => isRes e
   | .boolean _ => true
   | _ => false
 
